@@ -33,7 +33,7 @@ LEVEL_TEXT = ('Modular frame check over the real AST: every function reachable f
     'package modules included) has the frame "stores to nothing that outlives the call": one obligation per assignment, '
     'augmented assignment, deletion and in-place mutator call; it is discharged when the access path is rooted at a local '
     'object and fails when it is rooted at a module-level name, a global declaration, a mutable default argument, a local '
-    'alias of one of those, or an attribute that may hold a default argument object (escape analysis: X.attr = parameter with a mutable literal default; not flagged when the object was built in the same function with that parameter passed explicitly). Function values (nested functions passed as arguments) count as call edges. All objects the filter works on (Parameters, Parser, tokens, settings, glossary) are allocated '
+    'alias of one of those, or an attribute that may hold a default argument object (escape analysis: X.attr = parameter with a mutable literal default; not flagged when the object was built in the same function with that parameter passed explicitly; interprocedural: a local bound to the result of a function that may return such an attribute value -- fixed point, calls resolved by name -- must not be mutated in place). Function values (nested functions passed as arguments) count as call edges. All objects the filter works on (Parameters, Parser, tokens, settings, glossary) are allocated '
     'after entry, so definitions, glossary entries, packages, language settings, placeholder rotation and item counters '
     'cannot leak into the next call.')
 LEVEL_NOTE = 'A syntactic effect system, not an SMT proof; aliasing through object fields is not tracked (assumption listed).'
